@@ -489,7 +489,7 @@ func bindsG(vs []vinfo, inits []node) string {
 // control forms whose value is the value of an inner expression of type t
 func (g *gen) control(t typ, d int) (node, bool) {
 	nilable := nilableT(t)
-	switch g.r.Intn(29) {
+	switch g.r.Intn(31) {
 	case 0:
 		g.h("progn")
 		b := g.body(t, d, 2)
@@ -725,6 +725,8 @@ func (g *gen) control(t typ, d int) (node, bool) {
 		return g.loopCapture(t, d)
 	case 27, 28:
 		return g.loopFormCapture(t, d)
+	case 29, 30:
+		return g.optCall(t, d)
 	case 21, 22:
 		return g.shadowCall(t, d)
 	case 23:
@@ -1181,6 +1183,16 @@ func (g *gen) typed(t typ, d int) node {
 				all := append(append([]node{}, as[:cut]...), tail)
 				return node{lisp("apply", f.L, joinL(all)), fmt.Sprintf("(EApply %s %s)", f.G, listG(all))}
 			}
+			if g.errs && strings.HasPrefix(f.L, "(lambda") && g.r.Chance(30) {
+				// a wrong number of arguments: every argument is evaluated, then the call is an error
+				if k > 0 && g.r.Bool() {
+					g.h("too-few-arguments")
+					as = as[:k-1]
+				} else {
+					g.h("too-many-arguments")
+					as = append(as, g.expr(tInt, d-1))
+				}
+			}
 			g.h("funcall")
 			return node{strings.TrimSpace(lisp("funcall", f.L, joinL(as))), fmt.Sprintf("(EFuncall %s %s)", f.G, listG(as))}
 		case x < 85:
@@ -1309,6 +1321,16 @@ func (g *gen) call(d int) (node, bool) {
 			continue
 		}
 		as = append(as, g.expr(f.ptype(i), d-1))
+	}
+	if g.errs && !(g.self != nil && f.name == g.self.name) && g.r.Chance(12) {
+		// a wrong number of arguments in a call by name
+		if n := len(as); n > 1 && g.r.Bool() {
+			g.h("too-few-arguments")
+			as = as[:n-1]
+		} else {
+			g.h("too-many-arguments")
+			as = append(as, g.expr(tInt, d-1))
+		}
 	}
 	return node{strings.TrimSpace(lisp(f.name, joinL(as))), fmt.Sprintf("(ECall %s %s)", q(f.name), listG(as))}, true
 }
@@ -1737,4 +1759,91 @@ func (g *gen) loopFormCapture(t typ, d int) (node, bool) {
 	dummy := node{lisp("lambda", "()", "0"), "(ELambda [] [" + gInt(0) + "])"}
 	return node{lisp("let", "("+lisp(v, e1.L)+" "+lisp(f, dummy.L)+")", joinL(all)),
 		fmt.Sprintf("(ELet [(%s, %s); (%s, %s)] %s)", q(v), e1.G, q(f), dummy.G, listG(all))}, true
+}
+
+// (lambda (p.. &optional (o default).. ) ..) called with every number of arguments it accepts (and, in programs that
+// may contain errors, with one too few or one too many): the arguments are evaluated first, left to right, then the
+// default forms of the parameters that got no argument, left to right, each seeing the parameters before it; every
+// default form and every argument is a trace probe, the values the parameters got are made visible in the trace
+func (g *gen) optCall(t typ, d int) (node, bool) {
+	if d < 3 {
+		return node{}, false
+	}
+	g.h("idiom:optional-parameters")
+	r, k := g.r.Intn(3), 1+g.r.Intn(2)
+	names := g.freshNames(r + k + 1)
+	f := names[r+k]
+	ps, os := names[:r], names[r:r+k]
+	mark := len(g.env)
+	for _, p := range ps {
+		g.push(vinfo{name: p, t: tInt})
+	}
+	saveSelf := g.self
+	g.self = nil
+	var llL, osG []string
+	llL = append(llL, ps...)
+	llL = append(llL, "&optional")
+	hasDefault := make([]bool, k)
+	for i, o := range os {
+		if g.r.Chance(15) { // no default form: nil
+			llL = append(llL, o)
+			osG = append(osG, fmt.Sprintf("(%s, EConst DNil)", q(o)))
+			g.push(vinfo{name: o, t: tAny, ro: true})
+			continue
+		}
+		hasDefault[i] = true
+		dflt := g.expr(tInt, d-2)
+		if vs := g.vars(tInt, 0, false); len(vs) > 0 && len(g.env) > mark && g.r.Chance(60) {
+			// the default reads a parameter bound before it
+			v := g.env[mark+g.r.Intn(len(g.env)-mark)]
+			if v.t == tInt {
+				dflt = node{lisp("+", v.name, dflt.L), fmt.Sprintf("(EPrim PAdd [EVar %s; %s])", q(v.name), dflt.G)}
+			}
+		}
+		dflt = g.tr(dflt)
+		llL = append(llL, lisp(o, dflt.L))
+		osG = append(osG, fmt.Sprintf("(%s, %s)", q(o), dflt.G))
+		g.push(vinfo{name: o, t: tInt})
+	}
+	var body []node
+	for _, p := range ps {
+		body = append(body, g.observeInt(p))
+	}
+	for i, o := range os {
+		if hasDefault[i] {
+			body = append(body, g.observeInt(o))
+		}
+	}
+	body = append(body, g.body(t, d-1, 1)...)
+	g.self = saveSelf
+	g.pop(mark)
+	lam := node{lisp("lambda", "("+strings.Join(llL, " ")+")", joinL(body)),
+		fmt.Sprintf("(ELambdaO %s %s %s)", strsG(ps), common.GList(osG), listG(body))}
+	// the calls: any number of arguments from the required ones up to all (a parameter without default form is nil)
+	minN := r
+	mkCall := func(n int) node {
+		var as []node
+		for i := 0; i < n; i++ {
+			as = append(as, g.tr(g.expr(tInt, d-2)))
+		}
+		return node{strings.TrimSpace(lisp("funcall", f, joinL(as))), fmt.Sprintf("(EFuncall (EVar %s) %s)", q(f), listG(as))}
+	}
+	g.push(vinfo{name: f, t: tFun, arity: 99})
+	var calls []node
+	for c := g.r.Intn(2); c > 0; c-- {
+		calls = append(calls, mkCall(minN+g.r.Intn(r+k-minN+1)))
+	}
+	n := minN + g.r.Intn(r+k-minN+1)
+	if g.errs && g.r.Chance(35) {
+		if r > 0 && g.r.Bool() {
+			g.h("too-few-arguments")
+			n = r - 1
+		} else {
+			g.h("too-many-arguments")
+			n = r + k + 1
+		}
+	}
+	calls = append(calls, mkCall(n))
+	g.pop(mark)
+	return node{lisp("let", "("+lisp(f, lam.L)+")", joinL(calls)), fmt.Sprintf("(ELet [(%s, %s)] %s)", q(f), lam.G, listG(calls))}, true
 }
